@@ -74,6 +74,34 @@ def run(ck):
             stores = [e for e in x.effects if e[0] == "store"]
             key = "push_error:path#%d" % i
             first = dc[0] if dc else None
+            if first is not None and first[1] == DEQ + "is_full" and first[2] == (SELF0,) and x.kind == "return":
+                # check-then-act form: `if queue.is_full() { replace the newest } else { push_back }` (push_back of a bounded
+                # deque fails exactly when it is full, so the two forms are the same)
+                isfull = None
+                for c in x.conds:
+                    if c[0] == "true" and pathsum.strip_sites(c[1]) == pathsum.strip_sites(("call",) + first[1:]):
+                        isfull = c[2]
+                rest = dc[1:]
+                if isfull is False:
+                    ok = len(rest) == 1 and rest[0][1] == DEQ + "push_back" and rest[0][2] == (SELF0, ("param", "error")) and not stores
+                    ck.judge(ok, "C09-Q", key + ":stored", "not full: push_back(self.0, error) and nothing else",
+                             "queue not full: operations are %s, stores %s" % ([d[1][len(DEQ):] for d in rest], len(stores)))
+                elif isfull is True:
+                    ok = len(rest) == 1 and rest[0][1] == DEQ + "back_mut" and rest[0][2] == (SELF0,)
+                    ck.judge(ok, "C09-Q", key + ":overflow-ops", "queue full: only back_mut(self.0) follows", "queue full: operations are %s (must be exactly back_mut)" % [d[1][len(DEQ):] for d in rest])
+                    if ok:
+                        bm = ("call",) + rest[0][1:]
+                        some = ps.decided(pathsum.St(x.conds), bm, SOME)
+                        if some:
+                            okst = len(stores) == 1 and stores[0][1] == ("payload", bm, SOME, 0) and stores[0][2] == ("ctor", QOVER, ()) and stores[0][3] is None
+                            ck.judge(okst, "C09-Q", key + ":overflow-store", "newest entry := Error::QueueOverflow", "overflow path stores %s" % [(show_term(s_[1]), show_term(s_[2])) for s_ in stores])
+                        elif some is False:
+                            ck.judge(not stores, "C09-Q", key + ":overflow-empty", "capacity-0 corner: nothing to replace", "store without a back element")
+                        else:
+                            ck.bad("C09-Q", key + ":overflow-store", "overflow path does not replace the newest entry by QueueOverflow")
+                else:
+                    ck.bad("C09-Q", key, "is_full() is not tested on this path")
+                continue
             ok0 = first is not None and first[1] == DEQ + "push_back" and first[2] == (SELF0, ("param", "error")) and x.kind == "return"
             ck.judge(ok0, "C09-Q", key + ":push_back-first", "first queue operation is push_back(self.0, error)",
                      "first queue operation is %s" % (first[1] + str([show_term(a) for a in first[2]]) if first else "none"), data=pathsum.show_exit(x))
@@ -115,7 +143,7 @@ def run(ck):
             ok = len(dc) == 1 and dc[0][1] == DEQ + "len" and x.value == ("call",) + dc[0][1:]
             ck.judge(ok, "C09-Q", "error_count:path#%d" % i, "error_count = self.0.len()", "error_count is %s" % pathsum.show_exit(x))
     # who-may-call on the deque, whole crate
-    allowed = {"push_back", "back_mut", "pop_front", "len", "new", "default"}
+    allowed = {"push_back", "back_mut", "pop_front", "len", "new", "default", "is_full", "is_empty", "capacity"}   # the last three only read
     n = 0
     for m in lib.facts["mir"]:
         for b in m["blocks"]:
